@@ -1,8 +1,16 @@
 import PoxModel.Base.Bytes
 /-! Packet-buffer pool of `SoftwareSwitchBase` (C18).
-`alloc` = `_buffer_packet` (pox/datapaths/switch.py:685-702), `use` = `_process_actions_for_packet_from_buffer` (:704-721),
+`alloc` = `_buffer_packet` (pox/datapaths/switch.py, name-anchored in harness/c18.py), `use` = `_process_actions_for_packet_from_buffer`,
 `step (.arrive …)` = the buffering + `send_packet_in` of a table miss (`rx_packet`, :518-526) or of an output:CONTROLLER action
 (`_output_packet`, :669-673, `send_packet_in` :418-436) — with `total_len` the length of the whole frame (repair D19).
+
+Assumed (stated in the evidence): the action list a release runs does not RAISE.  `_process_actions_for_packet_from_buffer`
+clears the slot AFTER `_process_actions_for_packet` returns, without try/finally: an action handler that raised half-way
+would leave the slot occupied and the id usable again.  Whether an action can raise on a well-formed request is C12's
+subject (its theorems and harness say no); `useStep` models the non-raising path only.
+
+Vocabulary: a buffered packet sent through output:TABLE into a table MISS is re-buffered with `miss_send_len` — that is
+`.useCtl id s.missLen`; two output:CONTROLLER actions in one list are `[.arrive fr port (some d1), .useCtl id d2]`.
 Core only. -/
 namespace Pox.BufPool
 
@@ -57,8 +65,13 @@ inductive Op
       buffer is released all the same -/
   | drop (id : Nat)
   | setMiss (n : Nat)
-  /-- any other controller message — in particular a flow_mod WITHOUT a buffer id that installs, changes or deletes table
-      entries (whatever those entries' actions are): the pool and what was handed out are untouched -/
+  /-- any other controller message: the pool and what was handed out are untouched.  In particular (a) a flow_mod WITHOUT a
+      buffer id that installs, changes or deletes table entries (whatever those entries' actions are), and (b) a flow_mod
+      that NAMES a buffer but is refused before it is carried out — unknown command (BAD_COMMAND) or, for ADD/MODIFY, an
+      action type the switch cannot execute (BAD_ACTION): `_rx_flow_mod` returns before the buffer is looked at, the buffer
+      stays held.  (A flow_mod whose table operation FAILS — overlap, table full — still releases its buffer: that is `.use`.)
+      That this op is the identity is the modelling decision; that the code behaves so is what the harness's `install` and
+      `fmbad` operations test. -/
   | other
 
 inductive Out
